@@ -38,7 +38,10 @@ recheck). The thorough tiers multiply the sampled parts by 15–60, deepen the e
 levels (C01 depth 10, C04 depth 9, C11 periods to 32 768 and tuples to 64) and add the memcheck and coverage
 lanes; they take 1–25 minutes each on this machine (C11, C16, C19: seconds — their spaces are enumerated
 completely already). The last full thorough pass (seed 1, all 19; seed 2 for the reference-model checks) was
-silent on the unchanged tree after false alarm F7 was repaired.
+silent on the unchanged tree after false alarm F7 was repaired. Every check whose workload changed in rounds
+11 to 14 was run again in its thorough tier afterwards, at a fresh seed (C05, C12, C13, C15, C18 at seed 3;
+C01, C02, C03, C09, C10, C17 at seed 4; C04, C14, C15 at seed 6), and all 19 quick checks at two to four further
+seeds: all silent.
 """
 s=open('/verif/DESIGN.md').read()
 i=s.index("### 8.6 As built")
